@@ -636,9 +636,44 @@ func TestTlvShapes(t *testing.T) {
 					}()
 					w.Emit(map[string]any{"ev": "tamper", "kind": sh.Kind, "id": s.Id, "signer": s.Signer, "region": rg.name + "/ReadPacket", "bit": bit, "off": bit/8 - rg.r[0], "outcome": out2})
 					n++
+					// ... and when the tampered Interest shares its buffer with a Data packet (nothing stops a link-layer fragment from
+					// carrying two blocks): whichever decoder is asked must not hand out that Interest
+					if bit%8 == 0 {
+						for _, order := range []string{"data-first", "interest-first"} {
+							both := append(append([]byte{}, c12Companion...), m...)
+							if order == "interest-first" {
+								both = append(append([]byte{}, m...), c12Companion...)
+							}
+							out4 := "decode-error"
+							func() {
+								defer func() {
+									if r := recover(); r != nil {
+										out4 = "panic"
+									}
+								}()
+								if pk, _, err := spec.ReadPacket(enc.NewBufferReader(both)); err == nil && pk.Interest != nil {
+									out4 = "accepted"
+								}
+								if pi, _, err := (spec.Spec{}).ReadInterest(enc.NewBufferReader(both)); err == nil && pi != nil && out4 != "accepted" {
+									out4 = "accepted"
+								}
+							}()
+							w.Emit(map[string]any{"ev": "tamper", "kind": sh.Kind, "id": s.Id, "signer": s.Signer, "region": rg.name + "/with-data/" + order, "bit": bit, "off": bit/8 - rg.r[0], "outcome": out4})
+							n++
+						}
+					}
 				}
 			}
 		}
 	})
 	writeMeta("tlv.meta.json", map[string]any{"events": n})
 }
+
+// c12Companion is a well-formed Data packet placed next to tampered Interests
+var c12Companion = func() []byte {
+	d, err := spec.Spec{}.MakeData(nm("/companion"), &ndn.DataConfig{}, enc.Wire{[]byte("x")}, sec.NewSha256Signer())
+	if err != nil {
+		panic(err)
+	}
+	return d.Wire.Join()
+}()
